@@ -15,7 +15,7 @@ from ..cfg import cfg_of
 from ..model import AnalysisError, dotted, norm
 from ..relang import L, mask_bytes, mask_of
 from ..strlang import DictV, Interp, IntFind, MatchV, Poison, Str
-from .common import Ctx, cfg_nodes_with_ast, calls_in, find_calls, key_of, node_exprs, leads_only_to_raise, assigned_names
+from .common import Ctx, cfg_nodes_with_ast, calls_in, find_calls, key_of, node_exprs, leads_only_to_raise, assigned_names, guards_of, resolve_locals
 
 EXPLANATION = (
     "Static decision on regular languages: the source of parser.py/receiver.py/rfc7230.py is parsed, the compiled "
@@ -247,6 +247,46 @@ def rule_g2_g3(ctx, rid2="C10.G2", rid3="C10.G3"):
                     continue
                 _report_value(ctx, rid3, "G3 chunk-ext", f, n, val, G.chunk_ext_nonempty, 0, "the accepted control line")
                 _under(ctx, rid3, "G3 chunk-ext", an, sv, G.chunk_ext_nonempty, f, sink=n)
+    # the same split written with partition: `size, sep, ext = line.partition(b";")`.  Whatever follows the size - the
+    # separator included - must go through the extension gate whenever the separator is there: the gate may be skipped only
+    # for an absent separator, not for an empty remainder (`5;` has a separator and no extension: not in the grammar)
+    for n in an.cfg.nodes:
+        if n.kind != "stmt" or not isinstance(n.ast, ast.Assign) or not isinstance(n.ast.value, ast.Call) or not isinstance(n.ast.value.func, ast.Attribute) \
+                or n.ast.value.func.attr != "partition" or not isinstance(n.ast.targets[0], ast.Tuple) or len(n.ast.targets[0].elts) != 3:
+            continue
+        cst = n.ast.value.args[0] if n.ast.value.args else None
+        if not (isinstance(cst, ast.Constant) and cst.value == b";") or not all(isinstance(e, ast.Name) for e in n.ast.targets[0].elts):
+            continue
+        head, sep, tail = [e.id for e in n.ast.targets[0].elts]
+        exts += 1
+
+        def _names(a0):
+            """names an argument of the gate is made of (a local standing for `sep + tail` counts as both)"""
+            out = set()
+            for y in ast.walk(a0):
+                if isinstance(y, ast.Name):
+                    out.add(y.id)
+                    src = resolve_locals(f, y)
+                    if src is not None and src is not y:
+                        out |= {z.id for z in ast.walk(src) if isinstance(z, ast.Name)}
+            return out
+        gates = [m for m in an.cfg.nodes if m.ast is not None and m.kind in ("stmt", "test") and an.cfg.dominates(n, m)
+                 and any(isinstance(c, ast.Call) and isinstance(c.func, ast.Attribute) and c.func.attr in ("match", "fullmatch") and "CHUNK_EXT" in norm(c.func.value)
+                         and any(tail in _names(a0) for a0 in c.args) for c in ast.walk(m.ast))]
+        if not gates:
+            ctx.r.violation(rid3, "G3:unvalidated-suffix", "the part of the control line after b';' is dropped without validation (%s)" % norm(n.ast), f.loc(n.ast), {"witness": repr(b"0;\x00"), "side": "over"})
+            continue
+        for m in gates:
+            gs = [(t, pol) for (t, pol) in guards_of(an.cfg, m) if an.cfg.dominates(n, [x for x in an.cfg.nodes if x.kind == "branch" and x.ast is getattr(t, "_guard_of", t)][0])]
+            on_tail = [(t, pol) for (t, pol) in gs if pol and any(isinstance(y, ast.Name) and y.id == tail for y in ast.walk(t)) and not any(isinstance(y, ast.Name) and y.id == sep for y in ast.walk(t))]
+            arg_has_sep = any(isinstance(c, ast.Call) and isinstance(c.func, ast.Attribute) and c.func.attr in ("match", "fullmatch") and any(sep in _names(a0) for a0 in c.args) for c in ast.walk(m.ast))
+            if on_tail:
+                ctx.r.violation(rid3, "G3:dangling-separator", "the chunk-extension gate only runs when the text after b';' is non-empty (%s): a control line ending in the separator (b'5;') is accepted although `;` must be followed by an extension name"
+                                % norm(on_tail[0][0]), f.loc(m.ast), {"witness": repr(b"5;"), "side": "over"})
+            elif not arg_has_sep:
+                ctx.r.error(rid3, "chunk-extension gate applied to %s without the separator: not decided" % tail)
+            else:
+                ctx.r.ok(rid3, "the extension gate sees separator + remainder whenever the separator is present", f.loc(m.ast))
     ctx.r.floor(rid2, sinks, 1, "int(x, 16) conversions of chunk sizes")
     ctx.r.floor(rid3, exts, 1, "chunk-extension splits")
 
